@@ -1,2 +1,50 @@
--- line-protocol model driver for C19 (stub)
-def main : IO Unit := IO.println "stub C19"
+/- Line-protocol model driver for C19.
+    init <frame> <stackstart> <stacktop> <capacity>      set the fiber state            -> state line
+    push <n>                                             janet_fiber_pushn              -> state line
+    tail <slotcount> <arity> <min> <max> <vararg 0|1>    janet_fiber_funcframe_tail     -> state line | "arity"
+    call <slotcount> <arity> <min> <max> <vararg 0|1>    janet_fiber_funcframe          -> state line | "arity"
+    rankok                                               certificate check on Gen graph -> "true" | "false <a> <b>"
+   state line: "<frame> <stackstart> <stacktop> <capacity>"
+-/
+import Driver.Util
+import JanetModel.Depth.Model
+import JanetModel.Depth.Tail
+import JanetModel.Gen.Depth
+open Driver JanetModel.Depth
+
+def showF (f : Fiber) : String := s!"{f.frame} {f.stackstart} {f.stacktop} {f.capacity}"
+
+def nats (ts : List String) : Option (List Nat) := ts.mapM (fun t => t.toNat?)
+
+def step (f : Fiber) (toks : List String) : Fiber × String :=
+  match toks with
+  | "init" :: rest =>
+    match nats rest with
+    | some [a, b, c, d] => let f' : Fiber := ⟨a, b, c, d⟩; (f', showF f')
+    | _ => (f, "bad-op")
+  | ["push", n] =>
+    match n.toNat? with
+    | some k => let f' := pushn f k; (f', showF f')
+    | none => (f, "bad-op")
+  | "tail" :: rest =>
+    match nats rest with
+    | some [s, a, mn, mx, v] =>
+      match funcframeTail f ⟨s, a, mn, mx, v != 0⟩ with
+      | some f' => (f', showF f')
+      | none => (f, "arity")
+    | _ => (f, "bad-op")
+  | "call" :: rest =>
+    match nats rest with
+    | some [s, a, mn, mx, v] =>
+      match funcframe f ⟨s, a, mn, mx, v != 0⟩ with
+      | some f' => (f', showF f')
+      | none => (f, "arity")
+    | _ => (f, "bad-op")
+  | ["rankok"] =>
+    if rankOK JanetModel.Gen.Depth.cg JanetModel.Gen.Depth.rank then (f, "true")
+    else match firstBadEdge JanetModel.Gen.Depth.cg JanetModel.Gen.Depth.rank with
+      | some (a, b) => (f, s!"false {a} {b}")
+      | none => (f, "false node")
+  | _ => (f, "bad-op")
+
+def main : IO Unit := runLoop (⟨0, 0, 0, 0⟩ : Fiber) step
